@@ -186,14 +186,20 @@ def run_unit(uid):
                     res['obligations'].append({
                         'kind': 'safe.escape', 'label': 'exception %s escaped the unit' % ex.cls.__name__,
                         'status': 'failed', 'model': None, 'seconds': 0, 'backend': 'engine',
-                        'decisions': _ser(p.decisions), 'detail': str(ex.attrs.get('args')), 'props': u.props})
+                        'decisions': _ser(p.decisions), 'detail': str(ex.attrs.get('args')),
+                        'props': u.props + [ap for ap in (u.meta.get('also') or {}) if ap not in u.props]})
             if u.xcheck is not None and not eng.obligations_failed():
                 res['xcheck'] = cross_check(eng, u, paths)
         except OutOfSubset as e:
             res['oos'] = str(e)
         agg = {}
         for ob in eng.obligations:
-            props = getattr(ob, 'props', None) or u.props
+            props = list(getattr(ob, 'props', None) or u.props)
+            # obligations of some kinds also carry claims that use this unit's function by contract
+            # (meta['also'] = {property: [kind prefixes]}, e.g. host-error freedom of the memory path under C18)
+            for ap, kinds in (u.meta.get('also') or {}).items():
+                if ap not in props and ob.kind in kinds:
+                    props.append(ap)
             if ob.status == 'proved':
                 key = (ob.kind, ob.label, ob.backend, tuple(props))
                 a = agg.get(key)
